@@ -302,14 +302,18 @@ end Index
 section XRay
 variable {K : Type} [CommRing K]
 
-/-- when no bin index is negative the scatter-add realises the documented two-bin matrix -/
-theorem xray_eq_mulVec (np : Nat) (I : Nat → Int) (w x : V K) (ny : Nat) (hI : ∀ p, p < np → 0 ≤ I p)
+theorem fixNeg_eq_iff (ny : Nat) (i : Int) (b : Nat) (hb : b < ny) : fixNeg ny i = (b : Int) ↔ i = (b : Int) := by
+  unfold fixNeg
+  split <;> constructor <;> intro h <;> omega
+
+/-- the scatter-add realises the documented two-bin matrix, for every bin index (negative and too large ones
+    included: each of the two bins is dropped on its own when it is off the detector) -/
+theorem xray_eq_mulVec (np : Nat) (I : Nat → Int) (w x : V K) (ny : Nat)
     (b : Nat) (hb : b < ny) : xrayProject np I w x ny b = mulVec (xrayMatrix I w) np x b := by
   unfold xrayProject mulVec xrayMatrix
   simp only [hb, if_true]
-  refine sumTo_congr (fun p hp => ?_)
-  have : fixNeg ny (I p) = I p := by simp [fixNeg, hI p hp]
-  rw [this]
+  refine sumTo_congr (fun p _ => ?_)
+  simp only [fixNeg_eq_iff ny _ b hb]
   split <;> split <;> ring
 
 theorem sum_ite_int_eq (ny : Nat) (i : Int) (v : K) (h0 : 0 ≤ i) (h1 : i < ny) :
@@ -330,9 +334,8 @@ theorem xray_mass (np : Nat) (I : Nat → Int) (w x : V K) (ny : Nat)
     intro b hb
     unfold xrayProject
     simp only [mem_range.mp hb, if_true, sumTo_eq_sum]
-    refine sum_congr rfl (fun p hp => ?_)
-    have : fixNeg ny (I p) = I p := by simp [fixNeg, (hI p (mem_range.mp hp)).1]
-    rw [this]
+    refine sum_congr rfl (fun p _ => ?_)
+    simp only [fixNeg_eq_iff ny _ b (mem_range.mp hb)]
   rw [sum_congr rfl e, sum_comm]
   refine sum_congr rfl (fun p hp => ?_)
   obtain ⟨h0, h1⟩ := hI p (mem_range.mp hp)
